@@ -70,6 +70,7 @@ type Config struct {
 	// x/bitcoin
 	BitcoinParams  func(*bitcointypes.Params)
 	BtcStartHeight uint64 // genesis BlockTip (default 100); EthTxQueue.BlockNumber is set to the same value
+	BtcFullHistory bool   // genesis lists the hashes of all heights 0..BtcStartHeight
 	// x/goat
 	EthGenesisNumber uint64 // block number of the execution-layer genesis head
 
@@ -238,6 +239,12 @@ func buildGenesis(cfg *Config, cdc codec.Codec, def map[string]json.RawMessage,
 		st.Pubkey = btcPub
 		st.BlockTip = cfg.BtcStartHeight
 		st.BlockHashes = [][]byte{BtcBlockHash(cfg.Seed, cfg.BtcStartHeight)}
+		if cfg.BtcFullHistory {
+			// every height down to 0 carries a hash (tip+1 hashes: the most a genesis may list)
+			for h := cfg.BtcStartHeight; h > 0; h-- {
+				st.BlockHashes = append(st.BlockHashes, BtcBlockHash(cfg.Seed, h-1))
+			}
+		}
 		st.EthTxQueue = bitcointypes.EthTxQueue{BlockNumber: cfg.BtcStartHeight}
 		if err := st.Validate(); err != nil {
 			return nil, nil, fmt.Errorf("bitcoin genesis: %w", err)
